@@ -60,7 +60,16 @@ func runC18(c *runCtx) {
 			select {
 			case <-done:
 			case <-time.After(c18RunLimit):
-				c.violation(-1, "C18/deadlock", fmt.Sprintf("a run (workers=%d GOMAXPROCS=%d cacheSize=%d) did not come back within %v: a call into the cache blocks for ever; last context: %v", cf.workers, cf.procs, cf.cacheSize, c18RunLimit, c.extra["context"]), nil)
+				// (with a cache size that forces eviction this is the known defect, under its own key as everywhere
+				// in this slice: the calls of the run's own epilogue block on an evicted instance as well)
+				key := "C18/deadlock"
+				if cf.cacheSize > 0 {
+					key = "C18/eviction:deadlock"
+				}
+				c.violation(-1, key, fmt.Sprintf("a run (workers=%d GOMAXPROCS=%d cacheSize=%d) did not come back within %v: a call into the cache blocks for ever; last context: %v", cf.workers, cf.procs, cf.cacheSize, c18RunLimit, c.extra["context"]), nil)
+				if cf.cacheSize > 0 {
+					continue
+				}
 				return
 			}
 			cleanupScratch()
